@@ -31,4 +31,30 @@ OBLIGATIONS = [
     limb("booth5", "h_booth", "Booth w=5 digits reconstruct k (52 windows)", defs=["-DBOOTH_W=5"]),
     limb("booth7", "h_booth", "Booth w=7 digits reconstruct k (37 windows)", defs=["-DBOOTH_W=7"]),
 ]
+
+SMALLP_RM = ["sm2_z256_modp_add", "sm2_z256_modp_sub", "sm2_z256_modp_dbl", "sm2_z256_modp_tri", "sm2_z256_modp_neg", "sm2_z256_modp_haf",
+             "sm2_z256_modp_mont_mul", "sm2_z256_modp_mont_sqr", "sm2_z256_modp_to_mont", "sm2_z256_modp_from_mont", "sm2_z256_modp_mont_inv"]
+def pt(name, entry, title, pf, **kw):
+    d = {"id": "C13-e.%s.p%d" % (name, pf), "harness": "harness/C13/points.c", "entry": entry, "units": ["sm2_z256.c"], "models": ["models/sm2_smallp.c"],
+         "remove": {"sm2_z256.c": SMALLP_RM + ["sm2_z256_print", "sm2_z256_point_print", "sm2_z256_point_affine_print", "sm2_z256_from_hex", "sm2_z256_equ_hex",
+                                                "sm2_z256_point_from_hex", "sm2_z256_point_equ_hex", "sm2_z256_point_from_hash", "sm2_z256_point_to_der", "sm2_z256_point_from_der", "sm2_z256_rand_range"]},
+         "defs": ["-DPF=%d" % pf], "unwind": pf + 2, "timeout": 900, "title": title,
+         "bounds": "field F_%d (M4'), every curve y^2 = x^3 - 3x + b (non-singular), all affine points without 2-torsion, every Jacobian representative, both infinity encodings" % pf,
+         "stubs": ["mod-p layer instantiated over F_%d with Montgomery radix 2 (models/sm2_smallp.c)" % pf]}
+    d.update(kw)
+    return d
+for pf in (13, 31):
+    t = "quick" if pf == 13 else "thorough"
+    OBLIGATIONS += [
+        pt("point_dbl", "h_point_dbl", "sm2_z256_point_dbl = group law, also in place", pf, tier=t),
+        pt("point_add_affine", "h_point_add_affine", "sm2_z256_point_add_affine = group law (incl. P = Q, P = -Q, infinity)", pf, tier=t),
+        pt("get_xy", "h_get_xy", "point_get_xy / is_at_infinity: affine coordinates from every Jacobian representative", pf, tier=t),
+    ]
+    for z1 in range(1, pf):
+        tz = "quick" if (pf == 13 and z1 in (1, 2, 5, 12)) else "thorough"
+        for nm, en, ti in (("point_add", "h_point_add", "sm2_z256_point_add = group law (P+Q, P=Q, P=-Q, infinity on either side)"),
+                           ("point_neg_sub", "h_point_neg_sub", "point_neg, point_sub = group law"),
+                           ("point_add_inplace", "h_point_add_inplace", "sm2_z256_point_add with R == A = group law")):
+            OBLIGATIONS.append(pt("%s.z%d" % (nm, z1), en, ti, pf, tier=tz, defs=["-DPF=%d" % pf, "-DZ1FIX=%d" % z1],
+                                  bounds="field F_%d, every non-singular curve y^2 = x^3 - 3x + b, all affine points without 2-torsion; first operand with Jacobian Z = %d, second operand every representative; both infinity encodings" % (pf, z1)))
 NOTE = "C13: SM2 256-bit arithmetic layer (portable C back end)."
